@@ -111,6 +111,18 @@ CHECKS = {
         "by refusing everything).",
    note="trusted: vmod observer built from /verif/vmod against the working tree; a typed null (x:vmod) is not an object; upper/mixed-case spellings are not module names at all",
    design="4/C16"),
+ "C17": dict(
+   technique="offline checker over the observer modules' event log (create/destroy/method, phase-marked per statement) against a reference-graph model + liveness probes + ASan on a real-free pass",
+   text="Generated programs create, copy, overwrite and drop object references of two observer modules through variables, tables (tab(n, ctor), put, "
+        "concat, delete, at), tuples, function parameters/returns/locals (including a failing function and a local never returned), loops and forall; "
+        "they run one top-level statement at a time with MARK lines in the module's log, each followed by ping() probes through every reference the "
+        "model holds; then programs/contexts are released in one of five orders (incl. purge, clone then free original, clone-run-free). The checker "
+        "demands: predicted number/order of constructor evaluations, no destroy in a phase where the model still reaches the object, every probe "
+        "reaches exactly the predicted object, no method on a dead or foreign-module object, no second destroy, every created object destroyed once "
+        "by the end, and exact argument values for typed methods. Half of the shards run in tombstone mode (stale use is recorded), half really free "
+        "so that ASan sees use-after-free/double free itself.",
+   note="trusted: the model predicts constructor evaluation order; only 'too early' and the final balance are asserted (temporaries and function locals are released lazily)",
+   design="4/C17"),
  "C06": dict(
    technique="reference-interpreter monitor (python model of the documented loop/conditional semantics) over generated programs + post-run invariant hooks (control stack, symbol flags) + ASan/UBSan",
    text="Loop headers are enumerated bounded-exhaustively (bounds in {-2..2, INT64_MIN..+2, INT64_MAX-2.., null} x steps {absent,1,2,3,0,-1,null,INT64_MAX} x "
